@@ -6,7 +6,6 @@ claim('C06', 'model_checking',
 
 NA.update({
  'C19': 'planned (regex -> z3 against reference statement grammars) but not built in the time available; not replaced by another technique',
- 'C35': 'planned (C-semantics interpretation of the transpiled kernel + ISO-C wrapper) but not built in the time available',
  'C02': 'pure text/structure identity over programs: no value domain for a solver (behavioural shadow covered by C01)',
  'C14': 'tree/node-identity property; CrossHair cannot execute Transformer (proxy intolerance on node hashing) and a hand encoding would model, not run, the code',
  'C15': 'pure structural search result; visitors not executable symbolically, no value domain',
@@ -121,3 +120,8 @@ claim('C36', 'translation_validation',
       'Bounded translation validation: the real FortranPythonTransformation + pygen are run on each of 79 Fortran kernels (arithmetic and literals, integer division, real->integer conversion, logicals, IF chains, DO loops with positive/negative/zero-trip ranges, DO WHILE, mapped intrinsics, casts, 1-D/2-D/local arrays, array sections, whole-array statements, non-default lower bounds) x size instances; the original is interpreted with Fortran semantics and the generated function (Python ast) with Python/numpy semantics on the same symbolic inputs, called the way the repository tests call it; z3 decides for EVERY input within the bounds whether a returned scalar or array element differs or the function raises; models are replayed (gfortran build of the original vs CPython+numpy run of the generated module).',
       'Trusted: vlib/fsmt (Fortran semantics, self-validated against gfortran in C01) and vlib/fsmt/pysem.py (Python/numpy semantics; every counterexample is confirmed by CPython+numpy, an unconfirmed one is reported as inconclusive), z3. Bounds: |ints| <= 6, reals exact (uninterpreted first), extents 3-5, exponents 0..3, while-loops 5 iterations with unwinding condition. Outside: with_dace / invert_indices, derived types, real32 rounding, np.int32 overflow, SELECT CASE / WHERE / EXIT (no pygen handler).',
       'translation validation: symbolic interpretation of Fortran IR and of the generated Python ast + SMT equivalence (z3), gfortran/CPython replay', 'E-SMT', 'DESIGN.md#C36')
+
+claim('C35', 'translation_validation',
+      'Bounded translation validation: the real FortranCTransformation (and FortranISOCWrapperTransformation) are run on each of ~105 Fortran kernels (the C36 families plus 3-D index flattening, non-default lower bounds, signs of integer division / MOD, SELECT CASE, EXIT / CYCLE / RETURN, logical arguments and locals, nested intrinsics) x size instances; the original is interpreted with Fortran semantics and the generated kernel -- parsed from the emitted C text -- with C semantics on the same symbolic inputs; z3 decides for EVERY input within the bounds whether an output differs or a subscript leaves its array; a kernel rejected by gcc is a violation; models are replayed end to end through the generated ISO-C wrapper (gfortran + gcc with ASan/UBSan).',
+      'Trusted: vlib/fsmt (Fortran semantics) and vlib/fsmt/csem.py (C parser + semantics; every counterexample is confirmed by gcc/gfortran), z3. Bounds: |ints| <= 6, doubles exact (uninterpreted first), extents 3-5, exponents 0..3, input-dependent loops 5/40 iterations with unwinding condition. Outside: derived-type arguments / header modules, cpp and cuda variants, global variables, overflow and rounding; the ISO-C wrapper is exercised by replays only (PARTIAL for the wrapper).',
+      'translation validation: symbolic interpretation of Fortran IR and of the generated C text + SMT equivalence (z3), gfortran/gcc end-to-end replay', 'E-SMT', 'DESIGN.md#C35')
